@@ -429,6 +429,25 @@ func (w *SrvWork) onReply(ci int, r *Recvd) {
 		if r.M.Type == Rclunk || r.M.Type == Rremove || r.M.Type == Rwstat {
 			continue // replies without a body cannot be told apart by content
 		}
+		// ambiguous if the request that now holds the tag expects exactly these bytes too (Rwrite carries only a count)
+		ambiguous := false
+		for _, q2 := range w.byConn[ci] {
+			if q2.Sent != r.For || q2.IsFlush {
+				continue
+			}
+			for _, inv2 := range w.invsOf(q2) {
+				if inv2.Expect != nil {
+					e2 := *inv2.Expect
+					e2.Tag = q2.Tag
+					if bytes.Equal(Encode(&e2, w.sys.Conns[ci].Peer.Dotu), r.Raw) {
+						ambiguous = true
+					}
+				}
+			}
+		}
+		if ambiguous {
+			continue
+		}
 		for _, inv := range w.invsOf(q) {
 			if inv.Expect == nil {
 				continue
